@@ -200,7 +200,7 @@ func clauseToGo(ex ast.Expr) (src string, olds []string, ok bool) {
 					delete(bound, nm)
 					v.Args[0], v.Args[1] = rewrite(v.Args[0]), rewrite(v.Args[1])
 					return v
-				case "forallT_", "existsT_", "typeis", "unbox", "box", "fresh", "alive0", "ref", "off", "floor":
+				case "forallT_", "existsT_", "typeis", "unbox", "box", "fresh", "calleefresh", "alive0", "ref", "off", "floor":
 					ok = false
 					return n
 				}
